@@ -139,7 +139,22 @@ func (c *Conn) RunWALTx(spec WALSpec) (res TxResult) {
 	w := d.W
 	off := d.WalEnd
 	restarted := false
-	if w == nil || off < ref.WALHeaderSize || d.Backfilled {
+	canRestart := w == nil || off < ref.WALHeaderSize
+	if !canRestart && d.Backfilled {
+		// SQLite restarts a fully backfilled log only if it can lock READ1..4
+		// exclusively (no reader is using the log); otherwise it keeps appending.
+		if err := d.step("lock READ1..4 excl (restart probe)"); err != nil {
+			return fail("restart-probe", err)
+		}
+		if err := c.shm.Lock(c.Owner, WalRead0+1, WalRead0+4, true); err == nil {
+			canRestart = true
+		} else if err != drv.ErrBusy {
+			return fail("restart-probe", err)
+		}
+		// (LiteFS keeps the bytes granted before a refusal, so release either way)
+		_ = c.shm.Unlock(c.Owner, WalRead0+1, WalRead0+4)
+	}
+	if canRestart {
 		nw := &ref.WALWriter{BigEndian: d.BigEndian, PageSize: d.PageSize}
 		if w != nil {
 			nw.Seq = w.Seq + 1
